@@ -14,8 +14,8 @@ def canon_path(js):
         if "Schedule" in e:
             s = e["Schedule"]
             br.append({"k": "S", "th": list(s["threads"]), "pre": s["preemptions"],
-                       "ia": 0 if s["initial_active"] is None else s["initial_active"] + 1,
-                       "prev": 0 if s["prev"] is None else s["prev"]["index"] + 1, "ex": s["exploring"]})
+                       "ia": 0 if s.get("initial_active") is None else s["initial_active"] + 1,
+                       "prev": 0 if s.get("prev") is None else s["prev"]["index"] + 1, "ex": s["exploring"]})
         elif "Load" in e:
             s = e["Load"]
             br.append({"k": "L", "vals": list(s["values"][: s["len"]]), "pos": s["pos"], "ex": s["exploring"]})
